@@ -71,7 +71,25 @@ Theorem C15_admission : forall md l c A c' p a,
     (forall k' r, In (k', r) (a_reps a) -> (r_ctype r = r_ctype ref \/ r_preenc r = true) -> dur_ms r = Ok (a_loop a)).
 Proof. exact (served_asset_admission B enc dec). Qed.
 
+(** ... which is the hypothesis [wf_loop] of the timeline theorems (C01, C02, C04 ...): the loop
+    duration of the served reference table is exactly LoopDurMS milliseconds. *)
+Theorem C15_admission_wf_loop : forall md l c A c' p a,
+  discover B enc dec md l c = Ok (A, c') -> In (p, a) A ->
+  exists k ref,
+    a_ref a = Some k /\ lookup k (a_reps a) = Some ref /\
+    (r_segs ref <> [] -> 0 <= repDuration (trep ref) < two63 -> admission_range ref ->
+     1000 * repDuration (trep ref) = a_loop a * ts (trep ref)).
+Proof. exact (served_ref_wf_loop B enc dec). Qed.
+
 End C15.
+
+(** ConstantSampleDuration (needed by the audio path, C03) is non-zero exactly when all segments
+    have one common sample duration. *)
+Theorem C15_constant_sample_duration : forall l d,
+  Forall (fun s => 0 <= c_csd s < two32) l ->
+  const_sample_dur l = Some d -> d <> 0 ->
+  l <> [] /\ Forall (fun s => c_csd s = d) l.
+Proof. exact const_sample_dur_nonzero. Qed.
 
 (** A loop that is not a whole number of milliseconds is left out. *)
 Theorem C15_admission_not_whole_ms : forall a k ref,
@@ -167,6 +185,8 @@ Print Assumptions C15_cache_after_write.
 Print Assumptions C15_idempotent.
 Print Assumptions C15_idempotent_file.
 Print Assumptions C15_admission.
+Print Assumptions C15_admission_wf_loop.
+Print Assumptions C15_constant_sample_duration.
 Print Assumptions C15_admission_not_whole_ms.
 Print Assumptions C15_admission_is_wf_loop.
 Print Assumptions C15_contiguous_number.
